@@ -1,4 +1,4 @@
-"""Question and ResourceRecord (C01, C05, C02)."""
+"""Question and ResourceRecord: envelope contracts (C05, C01, C02)."""
 from typed import list_fns
 import hand_types
 
@@ -8,23 +8,93 @@ RR_WF = "impl<'a> WireFormat<'a> for ResourceRecord<'a> {"
 RR_IMPL = "impl<'a> ResourceRecord<'a> {"
 
 def apply(c):
+    # ------------------------------------------------------------------ Question
     rel = 'dns/question.rs'
     c.wrap(rel, "pub struct Question<'a> {")
     for fn in list_fns(c, rel, Q_IMPL):
-        c.mark(rel, Q_IMPL, fn, '#[verifier::external]')
+        if fn not in ('write_common',):
+            c.mark(rel, Q_IMPL, fn, '#[verifier::external]')
+    c.contract(rel, Q_IMPL, 'write_common', """
+        ensures r is Ok ==> wrote(old(out), final(out), self.fixed_enc()), // @C02:question-fixed-part
+""")
     c.wrap(rel, Q_IMPL)
-    for fn in ('write_to', 'write_compressed_to', 'len'):
-        c.mark(rel, Q_WF, fn, '#[verifier::external_body]')
-    c.sub(rel, Q_WF, Q_WF + hand_types.WEAK)
+    c.mark(rel, Q_WF, 'write_compressed_to', '#[verifier::external_body]')
+    c.append(rel, """verus!{
+impl<'a> Question<'a> {
+    /// RFC 1035 4.1.2: QTYPE(2) QCLASS(2); RFC 6762 18.12: top bit of QCLASS = unicast-response
+    pub open spec fn fixed_enc(&self) -> Seq<u8> {
+        enc16(code_of_qtype(self.qtype)) + enc16(if self.unicast_response { code_of_qclass(self.qclass) | 0x8000 } else { code_of_qclass(self.qclass) })
+    }
+}
+}
+""")
+    c.sub(rel, Q_WF, Q_WF + """
+    open spec fn wf_ok(&self) -> bool { name_ok(self.qname.lv()) }
+    open spec fn wf_enc(&self) -> Seq<u8> { name_enc(self.qname.lv()) + self.fixed_enc() }
+    /// RFC 1035 4.1.2 question entry
+    open spec fn wf_dec(data: Seq<u8>, p: int, v: &Self, p2: int) -> bool {
+        let q = p + inplace_len(data, p);
+        &&& dec_labels(data, p, 0) == Some(v.qname.lv())
+        &&& q + 4 <= data.len()
+        &&& p2 == q + 4
+        &&& qtype_of_code(be16(data[q], data[q + 1])) == Ok::<QTYPE, crate::SimpleDnsError>(v.qtype)
+        &&& qclass_of_code(be16(data[q + 2], data[q + 3]) & 0x7FFF) == Ok::<QCLASS, crate::SimpleDnsError>(v.qclass)
+        &&& v.unicast_response == (be16(data[q + 2], data[q + 3]) & 0x8000 == 0x8000)
+    }
+""")
     c.wrap(rel, Q_WF)
 
+    # ------------------------------------------------------------------ ResourceRecord
     rel = 'dns/resource_record.rs'
     c.wrap(rel, "mod flag {")
     c.wrap(rel, "pub struct ResourceRecord<'a> {")
     for fn in list_fns(c, rel, RR_IMPL):
-        c.mark(rel, RR_IMPL, fn, '#[verifier::external]')
+        if fn not in ('write_common', 'new'):
+            c.mark(rel, RR_IMPL, fn, '#[verifier::external]')
+    c.contract(rel, RR_IMPL, 'new', """
+        ensures r.name == name, r.class == class, r.ttl == ttl, r.rdata == rdata, r.cache_flush == false,
+""")
+    c.contract(rel, RR_IMPL, 'write_common', """
+        ensures r is Ok ==> wrote(old(out), final(out), self.fixed_enc()), // @C02:record-fixed-part
+""")
     c.wrap(rel, RR_IMPL)
-    for fn in ('write_to', 'write_compressed_to', 'len'):
-        c.mark(rel, RR_WF, fn, '#[verifier::external_body]')
-    c.sub(rel, RR_WF, RR_WF + hand_types.WEAK)
+    c.mark(rel, RR_WF, 'write_compressed_to', '#[verifier::external_body]')
+    c.append(rel, """verus!{
+impl<'a> ResourceRecord<'a> {
+    /// RFC 1035 4.1.3: TYPE(2) CLASS(2) TTL(4); for OPT (RFC 6891) the CLASS slot carries the UDP payload size;
+    /// RFC 6762 10.2: top bit of CLASS = cache-flush
+    pub open spec fn fixed_enc(&self) -> Seq<u8> {
+        enc16(code_of_type(rdata_type(&self.rdata)))
+        + (match self.rdata {
+            RData::OPT(opt) => enc16(opt.udp_packet_size),
+            _ => enc16(if self.cache_flush { code_of_class(self.class) | 0x8000 } else { code_of_class(self.class) }),
+        })
+        + enc_be(self.ttl as nat, 4)
+    }
+}
+}
+""")
+    c.sub(rel, RR_WF, RR_WF + """
+    open spec fn wf_ok(&self) -> bool { name_ok(self.name.lv()) && self.rdata.wf_ok() && self.rdata.wf_enc().len() <= 65535 }
+    open spec fn wf_enc(&self) -> Seq<u8> {
+        name_enc(self.name.lv()) + self.fixed_enc() + enc16(self.rdata.wf_enc().len() as u16) + self.rdata.wf_enc()
+    }
+    /// RFC 1035 4.1.3 resource record: owner name, TYPE CLASS TTL RDLENGTH, RDATA of exactly RDLENGTH bytes
+    open spec fn wf_dec(data: Seq<u8>, p: int, v: &Self, p2: int) -> bool {
+        let q = p + inplace_len(data, p);
+        &&& dec_labels(data, p, 0) == Some(v.name.lv())
+        &&& q + 10 <= data.len()
+        &&& p2 == q + 10 + be16(data[q + 8], data[q + 9])
+        &&& p2 <= data.len()
+        &&& v.ttl as nat == be_nat(data.subrange(q + 4, q + 8))
+        &&& rdata_type(&v.rdata) == type_of_code(be16(data[q], data[q + 1]))
+        &&& RData::wf_dec(data, q, &v.rdata, p2)
+        &&& (if type_of_code(be16(data[q], data[q + 1])) == TYPE::OPT { v.class == CLASS::IN && !v.cache_flush }
+             else { class_of_code(be16(data[q + 2], data[q + 3]) & 0x7FFF) == Ok::<CLASS, crate::SimpleDnsError>(v.class)
+                    && v.cache_flush == (be16(data[q + 2], data[q + 3]) & 0x8000 == 0x8000) })
+    }
+""")
+    c.contract(rel, RR_WF, 'parse', "", pre_body="""
+        proof { assert(!0x8000u16 == 0x7FFFu16) by(bit_vector); }
+""")
     c.wrap(rel, RR_WF)
